@@ -91,11 +91,11 @@ theorem mem_analyseFunction {P : Preds} {cfg : Cfg} {f : Func} {att : Bool} {a :
 theorem mem_analyseMethod {P : Preds} {cfg : Cfg} {c : Cls} {m : Meth} {att : Bool} {a : Acc} :
     a ∈ analyseMethod P cfg c m att ↔
       P.isAnnotate m.name = false ∧ P.shouldSkip cfg.visibility (lastSegment m.name) att = false ∧
-      P.isConstructor m.name = false ∧ m.definedHere = true ∧ methodListed P cfg m.qualified = false ∧
+      P.isConstructor m.name = false ∧ m.definedIn c = true ∧ methodListed P cfg m.qualified = false ∧
       m.isCoroutine = false ∧ att = true ∧ a = .meth c m := by
   unfold analyseMethod
   by_cases h0 : (P.isAnnotate m.name || P.shouldSkip cfg.visibility (lastSegment m.name) att
-      || P.isConstructor m.name || !m.definedHere) = true
+      || P.isConstructor m.name || !m.definedIn c) = true
   · rw [if_pos h0]
     simp only [List.not_mem_nil, false_iff]
     rintro ⟨a1, a2, a3, a4, _⟩
